@@ -316,10 +316,12 @@ def canon(e):
         alts = list(e[1])
         mx = [a for a in alts if a[0] == 'const' and a[1] == 0xFFFFFFFF]
         tf = [a for a in alts if a[0] == 'proj' and tuple(a[2]) == ('@Ok', '.0') and a[1][0] == 'call' and a[1][1].endswith('try_from')]
-        if len(alts) == 2 and len(mx) == 1 and len(tf) == 1:
-            inner = [x for x in subexprs(tf[0]) if x[0] == 'proj' and fam.last_field(x) == 'limit']
-            if inner:
-                return ('SAT32', obj(inner[0]))
+        if len(alts) == 2 and len(mx) == 1 and len(tf) == 1 and tf[0][1][2]:
+            ca = canon(tf[0][1][2][0])
+            if ca[0] == 'PLACE' and ca[1].split('.')[-1] == 'limit':
+                return ('SAT32', ca[1])
+            if any(x[0] == 'proj' and fam.last_field(x) == 'limit' for x in subexprs(tf[0])):
+                return ('SAT32E', ca)      # saturating narrowing of an expression over the limit (e.g. limit - used)
         return ('ALT', tuple(sorted({repr(canon(a)) for a in e[1]})))
     if k == 'call':
         name = e[1]
@@ -347,9 +349,13 @@ def canon(e):
         if name == 'io::traits::BufSlice::total_len':
             return ('LEN', obj(e[2][0]))
         if name.endswith('try_from') or name.endswith('unwrap_or'):
-            inner = [x for x in subexprs(e) if x[0] == 'proj' and fam.last_field(x) == 'limit']
-            if inner:
-                return ('SAT32', obj(inner[0]))
+            tfc = [x for x in subexprs(e) if x[0] == 'call' and x[1].endswith('try_from') and x[2]]
+            if tfc:
+                ca = canon(tfc[0][2][0])
+                if ca[0] == 'PLACE' and ca[1].split('.')[-1] == 'limit':
+                    return ('SAT32', ca[1])
+                if any(x[0] == 'proj' and fam.last_field(x) == 'limit' for x in subexprs(e)):
+                    return ('SAT32E', ca)
         return ('CALL', name, tuple(canon(a) for a in e[2]))
     if k == 'proj':
         # (parts(x)).1 / (parts_mut(x)).1
@@ -582,6 +588,28 @@ def r4_guards(r, facts):
                     narrowed = [x for x in subexprs(e0) if (x[0] == 'cast' and x[1] == 'IntToInt' and x[3] in ('u32', 'u16')) or (x[0] == 'call' and x[1].endswith('try_from'))]
                     r.require(fam.last_field(e0) == 'limit' or (any(fam.last_field(x) == 'limit' for x in subexprs(e0)) and not narrowed), 'LimitedBuf::%s/left-init' % meth,
                               'the remaining-limit counter is not initialised with the full self.limit: %s' % (e0,), g.where(left0[0]))
+                    # ... and it is the same budget the sibling total (total_len / total_spare_capacity) is clamped to: if one side
+                    # works from `limit` and the other from `limit - used`, the kernel is offered more than the wrapper reports
+                    sib_name = 'total_len' if meth == 'as_iovecs' else 'total_spare_capacity'
+                    sib = [f2 for i2, f2 in facts.impl_fns(trait, sib_name) if i2['self'] == i['self']]
+                    if sib:
+                        es = ExprBuilder(sib[0], multi='phi')
+                        rets_ = [es.call(t2) for l2, t2 in sib[0].calls() if is_local(t2['dest'], 0)] + [es.rvalue(s2['rv']) for l2, s2 in sib[0].assigns() if s2['lhs']['l'] == 0 and not s2['lhs']['p']]
+
+                        def budget(c_):
+                            terms = list(c_[1:]) if c_[0] == 'MIN' else [c_]
+                            out_ = set()
+                            for t_ in terms:
+                                if t_[0] in ('LEN', 'SPARE'):
+                                    continue
+                                out_.add(repr(('PLACE', t_[1]) if t_[0] == 'SAT32' else (t_[1] if t_[0] == 'SAT32E' else t_)))
+                            return out_
+                        b_sib = set()
+                        for e_ in rets_:
+                            b_sib |= budget(canon(e_))
+                        b_here = budget(canon(ExprBuilder(g, multi='phi').rvalue(g.at(left0[0])['rv'])))
+                        r.inst('LimitedBuf::%s budget %s vs %s budget %s' % (meth, sorted(b_here), sib_name, sorted(b_sib)), g.where(left0[0]))
+                        r.require(b_here == b_sib, 'LimitedBuf::%s/budget' % meth, 'the iovecs are cut to %s but %s is clamped to %s: the two views of the remaining limit differ (after a partial transfer more is offered to the kernel than the wrapper reports as available)' % (sorted(b_here), sib_name, sorted(b_sib)), g.where(left0[0]))
             # `set_len(min(len, left))`: never longer than the iovec was and never longer than what is left of the limit
             arg_ok = _is_left(arg)
             am = arg
